@@ -90,6 +90,60 @@ func VerifC17Update() {
 	verifReach("c17.update")
 }
 
+// VerifC17SharedKey: the shards of one source share a checkpoint key (one hash, the fields of
+// several replication ids). Re-keying the position of shard A (rename, failover, both), stopped after
+// any number of its requests, leaves the position of shard B where it was: B's next start finds its
+// offset in its database.
+func VerifC17SharedKey() {
+	verifClockNs = 1700000000000000000
+	f := verifNewFake()
+	for db := 0; db <= 2; db++ {
+		f.request("select", []interface{}{strconv.Itoa(db)})
+		f.request("set", []interface{}{"data", "x"})
+	}
+	f.request("select", []interface{}{"0"})
+	oldName, idA, idB := "redis-gunyu-checkpoint-old", "idA", "idB"
+	dbA := verifChoose("dbA", 3)
+	dbB := verifChoose("dbB", 3)
+	offA, offB := verifI64("offA"), verifI64("offB")
+	verifAssume(verifAnd(verifAnd(offA >= 1, offA < 1<<40), verifAnd(offB >= 1, offB < 1<<40)))
+	verifSeedCheckpoint(f, dbA, oldName, idA, offA, 50)
+	verifSeedCheckpoint(f, dbB, oldName, idB, offB, 60)
+	f.request("hset", []interface{}{config.CheckpointKeyHashKey, idA, oldName})
+	f.request("hset", []interface{}{config.CheckpointKeyHashKey, idB, oldName})
+	newName, newId := oldName, idA
+	switch verifChoose("op", 3) {
+	case 0:
+		newName = "redis-gunyu-checkpoint-new"
+	case 1:
+		newId = "idA2"
+	default:
+		newName, newId = "redis-gunyu-checkpoint-new", "idA2"
+	}
+	ids := []string{newId, idA}
+	if newId == idA {
+		ids = []string{idA, "0000000000000000000000000000000000000000"}
+	}
+	idsB := []string{idB, "0000000000000000000000000000000000000000"}
+	nSeed := len(f.log)
+	err := UpdateCheckpoint(f, newName, ids)
+	verifAssert(err == nil, "C17.shared.error")
+	log := f.log
+	for p := nSeed; p <= len(log); p++ {
+		// shard B restarts under the name it has always used
+		got := verifNextStart(log, p, oldName, idsB)
+		verifAssert(got.ok, "C17.shared.other-shard-position-lost")
+		if got.ok {
+			verifAssert(got.off == offB && got.db == dbB, "C17.shared.other-shard-position-changed")
+		}
+		// and shard A's own position is still found (as in VerifC17Update)
+		own := verifNextStart(log, p, newName, ids)
+		verifAssert(own.ok && own.off >= offA && own.db == dbA, "C17.update.position-lost")
+	}
+	verifCover(dbA == dbB, "c17.shared.same-db")
+	verifReach("c17.shared")
+}
+
 // VerifC17StaleGC: garbage collection of stale checkpoints.
 func VerifC17StaleGC() {
 	now := int64(1700000000) * int64(time.Second)
